@@ -56,6 +56,22 @@ Proof.
 Qed.
 Print Assumptions C20_failure_effects.
 
+(* ---- only consumed entries matter: two schedules that agree on the calls a statement makes give the same run; in
+   particular a schedule none of whose consumed entries is a failure behaves exactly like the fault-free driver.  (This
+   is what makes "inject at every call the statement makes" an exhaustive enumeration of single failures.) ---- *)
+Theorem C20_only_consumed_entries_matter :
+  (forall bulk sch sch' st s,
+      (forall id, In id (d_log (snd (fexec bulk sch st s))) -> sch id = sch' id) ->
+      fexec bulk sch st s = fexec bulk sch' st s) /\
+  (forall bulk sch st s,
+      (forall id, In id (d_log (snd (fexec bulk sch st s))) -> sch id = FOk) ->
+      fexec bulk sch st s = fexec bulk no_faults st s).
+Proof.
+  split; [|exact fexec_no_consumed_failure].
+  intros bulk sch sch' st s H. unfold fexec in *. apply xexec_local. exact H.
+Qed.
+Print Assumptions C20_only_consumed_entries_matter.
+
 (* ---- why no goroutine is left behind and the statement returns (model of the channel protocol only; the tie to
    the code is the harness watchdog + goroutine count, hence C20 stays PARTIAL).  Pipeline.v: source -> channel ->
    forwarder -> channel -> consumer, as built by simpleFetch (driver lookup -> main loop -> addTriples) and by
